@@ -572,7 +572,12 @@ def summarize(check, tier, seed, records, wall, extra_bounded=None):
     failed, undecided, crashes = [], [], []
     names = []
     samples = []
+    bounded_total = bounded_ok = 0
     for rec in records:
+        try:
+            is_bounded = bool(getattr(load_harness(rec["harness"]), "bounded", False))
+        except Exception:
+            is_bounded = False
         if rec["status"] == "crash":
             crashes.append(rec)
         elif rec["status"] == "undecided":
@@ -581,6 +586,16 @@ def summarize(check, tier, seed, records, wall, extra_bounded=None):
         for r in rec["results"]:
             full = "%s/%s@%s" % (prop, r["name"], _shape_tag(rec["shape"]))
             names.append(full)
+            if is_bounded:
+                # run-time checks on sampled inputs: reported separately, never counted as proved
+                bounded_total += 1
+                if r["status"] == "discharged":
+                    bounded_ok += 1
+                elif r["status"] == "failed":
+                    failed.append((full, rec, r))
+                else:
+                    undecided.append({"name": full, "detail": r.get("detail")})
+                continue
             obligations += 1
             solver_secs += r.get("secs", 0)
             if r["status"] == "discharged":
@@ -636,7 +651,7 @@ def summarize(check, tier, seed, records, wall, extra_bounded=None):
         # interface form: line must end with the words when no input is found
     if violations:
         status = 1
-    elif crashes or obligations == 0:
+    elif crashes or (obligations == 0 and bounded_total == 0):
         status = 3
     elif undecided:
         status = 2
@@ -673,6 +688,9 @@ def summarize(check, tier, seed, records, wall, extra_bounded=None):
         "wall_s": round(wall, 2),
         "violations": len(violations),
     }
+    if bounded_total:
+        ev["coverage"]["bounded_standin"] = {"checks": bounded_total, "passed": bounded_ok,
+                                             "note": "run-time contract checks on generated / sampled inputs; NOT counted in obligations/discharged"}
     if extra_bounded:
         ev["coverage"]["bounded"] = extra_bounded
     os.makedirs(os.path.join(VERIF, "evidence"), exist_ok=True)
